@@ -164,6 +164,14 @@ func opBattery(seed int64) []call {
 			if s, err := new(edwards25519.Scalar).SetBytesWithClamping(w[:32]); err == nil {
 				out = append(out, s.Bytes()...)
 			}
+			out = append(out, new(edwards25519.Scalar).Subtract(a, b).Bytes()...)
+			out = append(out, new(edwards25519.Scalar).Set(a).Bytes()...)
+			if s, err := new(edwards25519.Scalar).SetCanonicalBytes(b.Bytes()); err == nil {
+				out = append(out, s.Bytes()...)
+			}
+			if _, err := new(edwards25519.Scalar).SetCanonicalBytes(bytes.Repeat([]byte{0xff}, 32)); err == nil {
+				out = append(out, 1)
+			}
 			return append(out, byte(a.Equal(b)))
 		}},
 		{"field ops", func() []byte {
@@ -181,6 +189,17 @@ func opBattery(seed int64) []call {
 			if v, err := new(field.Element).SetWideBytes(append(x.Bytes(), y.Bytes()...)); err == nil {
 				out = append(out, v.Bytes()...)
 			}
+			out = append(out, new(field.Element).Negate(&x).Bytes()...)
+			out = append(out, new(field.Element).Select(&x, &y, 1).Bytes()...)
+			sx, sy := x, y
+			sx.Swap(&sy, 1)
+			out = append(out, append(sx.Bytes(), sy.Bytes()...)...)
+			out = append(out, new(field.Element).Set(&x).Bytes()...)
+			out = append(out, new(field.Element).Zero().Bytes()...)
+			out = append(out, new(field.Element).One().Bytes()...)
+			if v, err := new(field.Element).SetBytes(y.Bytes()); err == nil {
+				out = append(out, v.Bytes()...)
+			}
 			return out
 		}},
 		{"scalar mults on own point", func() []byte {
@@ -189,6 +208,11 @@ func opBattery(seed int64) []call {
 			out := new(edwards25519.Point).ScalarMult(a, p).Bytes()
 			out = append(out, new(edwards25519.Point).VarTimeMultiScalarMult([]*edwards25519.Scalar{a, a}, []*edwards25519.Point{p, p}).Bytes()...)
 			out = append(out, new(edwards25519.Point).MultiScalarMult([]*edwards25519.Scalar{a}, []*edwards25519.Point{p}).Bytes()...)
+			out = append(out, new(edwards25519.Point).VarTimeDoubleScalarBaseMult(a, p, a).Bytes()...)
+			out = append(out, new(edwards25519.Point).Set(p).Bytes()...)
+			out = append(out, edwards25519.NewIdentityPoint().Bytes()...)
+			out = append(out, edwards25519.NewGeneratorPoint().Bytes()...)
+			out = append(out, edwards25519.NewScalar().Bytes()...)
 			return out
 		}},
 	}
@@ -235,6 +259,7 @@ func scenarios() []scenario {
 		{"S6 different variable points per thread", [][]call{{vtd(ka, ptA, kb), vsm(k1, ptA)}, {vtd(kb, ptA2, ka), vsm(k2, ptA2)}}, false},
 		{"S7 multi-scalar routines on different points", [][]call{{msm(ka, ptA, kb, ptA2), vtmsm(kb, ptA, ka, ptA2)}, {vtmsm(ka, ptA2, kb, ptA), msm(kb, ptA2, ka, ptA)}, {sbm(k1)}}, true},
 		{"S8 every operation class on private values", [][]call{opBattery(1), opBattery(2), opBattery(3)}, true},
+		{"S10 four threads, simultaneous first use of both tables", [][]call{{sbm(k1)}, {vtd(ka, ptA, kb)}, {sbm(k2)}, {vtd(kb, ptA2, ka)}}, false},
 		{"S9 a large multi-scalar call, then concurrent small ones", [][]call{{bigMulti(false), vtmsm(ka, ptA, kb, ptA2)}, {vtmsm(kb, ptA2, ka, ptA), msm(ka, ptA2, kb, ptA)}, {bigMulti(true), msm(kb, ptA, ka, ptA2), vtmsm(ka, ptA, ka, ptA)}}, true},
 	}
 }
@@ -249,7 +274,13 @@ type result struct {
 }
 
 func runSchedule(sc *scenario, prefix []int, expect []vsched.PointInfo, logEvents bool) *result {
-	restoreCold()
+	return runScheduleOpt(sc, prefix, expect, logEvents, true)
+}
+
+func runScheduleOpt(sc *scenario, prefix []int, expect []vsched.PointInfo, logEvents bool, cold bool) *result {
+	if cold {
+		restoreCold()
+	}
 	r := &result{outs: make([][][]byte, len(sc.threads))}
 	var bodies []func()
 	for ti, calls := range sc.threads {
@@ -286,10 +317,17 @@ func runSchedule(sc *scenario, prefix []int, expect []vsched.PointInfo, logEvent
 }
 
 type seqRef struct {
-	outs    [][][]byte
-	counts  map[string][2]int
-	calls   []int
-	globals [32]byte
+	outs   [][][]byte
+	counts map[string][2]int
+	calls  []int
+	// initOnly[i]: function i runs in a cold sequential execution but not at
+	// all when the same calls are repeated warm: one-time initialisation work
+	// (construction of lazily built package-level tables). Only for these is
+	// the execution count required to be schedule independent - a correctly
+	// locked cache may legitimately rebuild more or less often depending on
+	// the interleaving.
+	initOnly []bool
+	globals  [32]byte
 }
 
 // sequential reference: every thread's calls run one thread after the other
@@ -308,7 +346,17 @@ func sequentialRef(sc *scenario) *seqRef {
 	if r.exec.Deadlock || r.exec.Panicked() != nil || len(r.exec.Races) > 0 {
 		return &seqRef{outs: r.outs, counts: r.exec.Counts, calls: r.exec.Calls, globals: r.globals}
 	}
-	return &seqRef{outs: r.outs, counts: r.exec.Counts, calls: r.exec.Calls, globals: r.globals}
+	// warm repetition: same calls, package state left as the cold run left it
+	warm := runScheduleOpt(sc, nil, nil, false, false)
+	initOnly := make([]bool, len(r.exec.Calls))
+	for i, n := range r.exec.Calls {
+		wn := 0
+		if i < len(warm.exec.Calls) {
+			wn = warm.exec.Calls[i]
+		}
+		initOnly[i] = n > 0 && wn == 0
+	}
+	return &seqRef{outs: r.outs, counts: r.exec.Counts, calls: r.exec.Calls, initOnly: initOnly, globals: r.globals}
 }
 
 func modelOuts(sc *scenario) map[string][]byte {
@@ -380,8 +428,8 @@ func checkExecution(sc *scenario, seq *seqRef, r *result) string {
 		return 0
 	}
 	for i := 0; i < n; i++ {
-		if at(e.Calls, i) != at(seq.calls, i) {
-			return fmt.Sprintf("function %s ran %d times, %d times in the sequential execution of the same calls: work was duplicated or skipped under this schedule (tables constructed more than once?)", funcName(i), at(e.Calls, i), at(seq.calls, i))
+		if i < len(seq.initOnly) && seq.initOnly[i] && at(e.Calls, i) != at(seq.calls, i) {
+			return fmt.Sprintf("one-time initialisation function %s (never runs once the process is warm) ran %d times, %d times in the sequential cold execution of the same calls: lazily built state was constructed more than once (or partially) under this schedule", funcName(i), at(e.Calls, i), at(seq.calls, i))
 		}
 	}
 	// The final package state is NOT required to equal the sequential one: a
@@ -703,9 +751,9 @@ func readOnlyCases() []roCase {
 }
 
 func runC18(ctx *core.Ctx) {
-	ctx.Rule("stateless depth-first exploration of all schedules, up to a preemption bound, of 9 closed concurrent harnesses (2-3 threads, 1-4 calls each, all starting from a cold process image restored from a generated snapshot of every package-level variable) over the real library, instrumented at check time: sync/sync.atomic replaced by a shim whose operations are scheduling points and happens-before edges, plus a scheduling point and vector-clock race check before every statement that mentions a mutable package-level variable (classification recomputed from the tree). Oracle on every complete schedule: results equal the sequential ones (and the math/big model), no happens-before race, no deadlock, per-variable write counts equal the sequential execution's (constructed exactly once). states = scheduling points visited, transitions = thread steps executed, schedules = complete executions")
+	ctx.Rule("stateless depth-first exploration of all schedules, up to a preemption bound, of 10 closed concurrent harnesses (2-4 threads, 1-4 calls each, all starting from a cold process image restored from a generated snapshot of every package-level variable) over the real library, instrumented at check time: sync/sync.atomic replaced by a shim whose operations are scheduling points and happens-before edges, plus a scheduling point and vector-clock race check before every statement that mentions a mutable package-level variable (classification recomputed from the tree). Oracle on every complete schedule: results equal the sequential ones (and the math/big model), no happens-before race, no deadlock, per-variable write counts equal the sequential execution's (constructed exactly once). states = scheduling points visited, transitions = thread steps executed, schedules = complete executions")
 	ctx.Assume("scheduling points at synchronisation operations and at mentions of mutable package-level variables suffice (accesses through escaped pointers are covered by the value oracle and the sampled -race pass)",
-		"2-3 threads; more threads add no new kind of interaction for a once-only table (argument, not enumeration)",
+		"2-4 threads; more threads add no new kind of interaction for a once-only table (argument, not enumeration)",
 		"the Go memory model is approximated by sequential consistency plus vector-clock happens-before")
 	setupValues()
 	mo := modelOuts(nil)
@@ -871,6 +919,12 @@ func (o shardOut) exampleOutcome() string {
 }
 
 func boundFor(ctx *core.Ctx, sc *scenario) int {
+	if len(sc.threads) >= 4 {
+		if ctx.Quick() {
+			return 1
+		}
+		return 2
+	}
 	if ctx.Quick() {
 		return 2
 	}
